@@ -148,12 +148,12 @@ def joined(ctx, rep, rule):
         rep.check(rule, f"channel-closed-first/{fn.split('::')[0]}", okd, where=F.loc(), what=f"{fn} closes the input channel before waiting (the worker can terminate)")
 
 
-def global_state_rule(ctx, rep):
+def global_state_rule(ctx, rep, R="C13.g"):
     """C13.g results are functions of their inputs: no process-wide once-cell is initialised with a value that depends on
     the arguments of the function doing it (e.g. a per-repository parameter cached in a `static OnceLock`): the first
     repository used in a process would leak into every later one."""
     prog = ctx.prog
-    rep.rule("C13.g", "no process-wide once-cell is initialised from function arguments (repository-dependent data)")
+    rep.rule(R, "no process-wide or thread-local state (once-cell, thread_local!, mutable static) is fed from function arguments")
     n = 0
     for b in prog.by_crate["rustic_core"] + prog.by_crate.get("rustic_backend", []):
         for bb, t in b.calls():
@@ -169,10 +169,47 @@ def global_state_rule(ctx, rep):
                         dep.append("closure capturing " + ", ".join(sorted({m for m in re.findall(r"\('arg', (\d+)\)", repr(caps))})))
                 elif op_place(a) is not None and flow.backward_slice(b, op_place(a))["args"]:
                     dep.append("value derived from arguments")
-            rep.check("C13.g", f"{fn_key(b)}/once-cell", not dep, where=where(b, bb),
+            rep.check(R, f"{fn_key(b)}/once-cell", not dep, where=where(b, bb),
                       what=f"{fn_key(b)}: the process-wide cell is initialised independently of the function's arguments" if not dep else
                            f"{fn_key(b)}: a process-wide once-cell is initialised from the function's arguments ({dep[0]}): later calls with other arguments (another repository) silently get the first value")
-    rep.count("C13.g: once-cell initialisation sites", n)
+    # thread-local state: any access whose value / closure depends on the function's arguments keeps argument-dependent state
+    # across calls (a cache keyed by a repository's salt, id, path ...): later calls on the same thread see earlier inputs
+    TL = re.compile(r"^std::thread::LocalKey::<T>::(with|try_with|with_borrow|with_borrow_mut|set|replace|take)$|^std::thread::LocalKey::<std::cell::(RefCell|Cell)<T>>::(with_borrow|with_borrow_mut|set|replace|take|get)$")
+    ntl = 0
+    for b in prog.by_crate["rustic_core"] + prog.by_crate.get("rustic_backend", []):
+        for bb, t in b.calls():
+            if "callee" not in t or not TL.search(callee(t)):
+                continue
+            ntl += 1
+            dep = []
+            for a in t["args"][1:]:
+                e = flow.expr_of(b, a, bb)
+                if e[0] == "agg" and e[1][0] == "closure":
+                    caps = [x for x in e[2] if "('arg'," in repr(x)]
+                    if caps or (b.is_closure() and "('arg', 1)" in repr(e[2])):
+                        dep.append("closure capturing argument-derived values")
+                elif op_place(a) is not None and flow.backward_slice(b, op_place(a))["args"]:
+                    dep.append("value derived from arguments")
+            rep.check(R, f"{fn_key(b)}/thread-local", not dep, where=where(b, bb),
+                      what=f"{fn_key(b)}: thread-local state is accessed independently of the function's arguments" if not dep else
+                           f"{fn_key(b)}: thread-local state is read/written with {dep[0]}: results of later calls on this thread depend on earlier inputs (e.g. a derived key cached by salt unlocks with any password)")
+    # static items with interior mutability that are locked / borrowed / stored to
+    MUT = re.compile(r"^std::sync::(Mutex::<T>::lock|RwLock::<T>::(write|read))$|^std::cell::RefCell::<T>::(borrow_mut|replace)$|^std::sync::atomic::Atomic\w+::(store|swap|fetch_\w+|compare_exchange\w*)$|^std::sync::LazyLock::<T, F>::force$")
+    nst = 0
+    for b in prog.by_crate["rustic_core"] + prog.by_crate.get("rustic_backend", []):
+        for bb, t in b.calls():
+            if "callee" not in t or not MUT.search(callee(t)) or not t["args"] or op_place(t["args"][0]) is None:
+                continue
+            orig = flow.origins(b, op_place(t["args"][0]))
+            st = [o for o in orig if o.kind == "static"]
+            if not st:
+                continue
+            nst += 1
+            rep.check(R, f"{fn_key(b)}/static-state", False, where=where(b, bb),
+                      what=f"{fn_key(b)}: a `static` with interior mutability ({str(st[0].data)[:60]}) is locked / mutated: process-wide state shared by all repositories and calls")
+    rep.count(f"{R}: thread-local accesses", ntl)
+    rep.count(f"{R}: mutable static accesses", nst)
+    rep.count(f"{R}: once-cell initialisation sites", n)
 
 
 def termination_rules(ctx, rep):
